@@ -63,13 +63,19 @@ func (v *ControllerValidator) validateAnnotationPresence() []diagnostics.Resolve
 	counts := v.controller.Struct.Annotations.AttributeCounts()
 
 	if counts[annotations.GleeceAnnotationTag] <= 0 {
+		fileName, diagRange := v.holder.FileName(), v.holder.Range()
+		if fileName == "" && v.controller.Struct.FVersion != nil {
+			// A controller without any doc comment has no annotation block to point at: its declaration is the place
+			fileName, diagRange = v.controller.Struct.FVersion.Path, v.controller.Struct.Range
+		}
+
 		diagnosticsList = append(
 			diagnosticsList,
 			diagnostics.NewWarningDiagnostic(
-				v.holder.FileName(),
+				fileName,
 				fmt.Sprintf("Controller '%s' is lacking a @Tag annotation", v.controller.Struct.Name),
 				diagnostics.DiagControllerLevelMissingTag,
-				v.holder.Range(),
+				diagRange,
 			))
 	}
 
